@@ -8,7 +8,10 @@ Six cooperating monitors, selected by case index:
  B  black box, processes: backend None/loky/multiprocessing
  E  real threads with yield injection (sys.monitoring) on the shared-memory fit tasks: model equals n_jobs=1
  F  every completion order of the fit / hash-insert tasks through a permuting executor with recording dict
-    proxies: disjoint write sets, no read of a foreign write, identical model for every order"""
+    proxies: disjoint write sets, no read of a foreign write, identical model for every order
+ G  monitor A's comparison executed inside a forked multiprocessing child (the caller may itself be a pool worker)
+Half of the thread runs of A (and all of G) hand the GIL over every microsecond (sys.setswitchinterval), so that worker
+threads interleave inside pure-Python sections."""
 from mon import env  # noqa: F401
 import copy
 import itertools
@@ -28,16 +31,18 @@ RULE = ("D: all (n, n_jobs) with n<=64, n_jobs in -4..70; C: 39 neighbourhood co
         "threads; F: all task permutations (<=4 tasks, else 24 sampled) with write-set recording. Non-trivial = more rows than "
         "workers with a randomised policy / a partition with an inner boundary / an overlapping interleaving / a non-identity "
         "task order; distinct = (monitor, combo, variant, sizes | interleaving signature)")
-BLOCK = {"D": 1, "C": 39, "A": 96, "B": 12, "E": 60, "F": 44}
-ORDER = ["D", "C", "A", "B", "E", "F"]
+BLOCK = {"D": 1, "C": 39, "A": 96, "B": 12, "E": 60, "F": 44, "G": 12}
+ORDER = ["D", "C", "A", "B", "E", "F", "G"]
 TOTAL = sum(BLOCK.values())
 BUDGET = {"quick": {"cases": TOTAL, "shards": 12}, "thorough": {"cases": TOTAL * 12, "shards": 16, "wall_s": 3600}}
 MIN = {"quick": {"evaluations": 2000, "nontrivial": 150,
                  "counters": {"partitions_enumerated": 500, "partition_fn_checks": 4000, "thread_runs": 100,
-                              "overlapping_interleavings": 20, "task_orders": 150, "process_backend_cases": 6}},
+                              "overlapping_interleavings": 20, "task_orders": 150, "process_backend_cases": 6,
+                              "stressed_thread_calls": 100, "mp_child_runs": 8}},
        "thorough": {"evaluations": 20000, "nontrivial": 1500,
                     "counters": {"partitions_enumerated": 8000, "partition_fn_checks": 4000, "thread_runs": 1500,
-                                 "overlapping_interleavings": 300, "task_orders": 2000, "process_backend_cases": 80}}}
+                                 "overlapping_interleavings": 300, "task_orders": 2000, "process_backend_cases": 80,
+                                 "stressed_thread_calls": 1500, "mp_child_runs": 100}}}
 ASSUMPTIONS = ["Clusters cases use contexts in general position (k-means distance by matrix product may flip an exact tie with the chunk shape)",
                "process back-ends import the same /repo tree (PYTHONPATH exported by mon.env)",
                "a race inside a GIL-released NumPy section would not be seen; the disjoint-write-set invariant is the reason observed schedules generalise",
@@ -191,9 +196,17 @@ def run_AB(rs, ctx, j, processes):
         wit = {"cfg": c2, "ops": ops}
         if processes:
             ctx.count("process_backend_cases")
+        stressed = not processes and bool(rs.integers(2))
         for step, op in enumerate(ops):
             M0 = copy.deepcopy(M) if is_k2(cfg) and op["op"].startswith("predict") else None
-            out = gen.run_ops(M, [op])[0]
+            if stressed:
+                # the GIL is handed over every microsecond: worker threads interleave inside sections that a default 5 ms
+                # switch interval runs atomically
+                with sched.FastSwitch():
+                    out = gen.run_ops(M, [op])[0]
+                ctx.count("stressed_thread_calls")
+            else:
+                out = gen.run_ops(M, [op])[0]
             if not op["op"].startswith("predict"):
                 if out != ref[step]:
                     ctx.violation("%s n_jobs=%r backend=%r: %s -> %r, with n_jobs=1 %r" % (gen.cfg_sig(cfg), n_jobs, backend, gen.short(op), out, ref[step]),
@@ -223,6 +236,62 @@ def run_AB(rs, ctx, j, processes):
             if rows > 1 and (l in ("eg", "sm", "pop", "ts", "rnd", "lints", "lingreedy") or p != "none"):
                 ctx.nt("B" if processes else "A", gen.cfg_sig(cfg), n_jobs, backend, rows)
     ctx.sample({"monitor": "B" if processes else "A", "cfg": cfg, "variants": variants, "ops": [gen.short(o) for o in ops]})
+
+
+# ------------------------------------------------------------------------------------------------------ G
+def _g_child(conn, cfg, ops):
+    """runs inside a multiprocessing child (the application itself may be a pool worker of its caller)"""
+    try:
+        ref = gen.run_ops(gen.build(cfg), ops)
+        M = gen.build(dict(cfg, n_jobs=int(cfg["_g_jobs"]), backend="threading"))
+        with sched.FastSwitch():
+            out = gen.run_ops(M, ops)
+        conn.send({"ref": ref, "out": out, "in_child": mp.parent_process() is not None})
+    except BaseException as ex:  # noqa: BLE001
+        conn.send({"error": "%s: %s" % (type(ex).__name__, str(ex)[:200])})
+    finally:
+        conn.close()
+
+
+def run_G(rs, ctx, j):
+    """the same comparison as monitor A (threads vs n_jobs=1, switch-interval stress), executed inside a forked
+    multiprocessing child: what the library does must not depend on whether its caller is itself a worker process"""
+    l, p = gen.ALL_COMBOS[(j * 7 + ctx.index // TOTAL * 5) % 48]
+    cfg = gen.gen_cfg(rs, l, p, labels=gen.pick(rs, ["int", "str", "float"]), n_arms=int(gen.pick(rs, [2, 3, 4])),
+                      with_probs=bool(rs.integers(4) == 0))
+    cfg["_g_jobs"] = int(gen.pick(rs, [2, 3, 4]))
+    nf = int(gen.pick(rs, [1, 2, 3]))
+    ops = scenario_ops(rs, cfg, nf, [1, 3, int(gen.pick(rs, [9, 17, 40]))])
+    wit = {"cfg": cfg, "ops": ops, "where": "forked multiprocessing child, threads, switch interval 1e-6"}
+    c = mp.get_context("fork")
+    parent, child = c.Pipe(duplex=False)
+    pr = c.Process(target=_g_child, args=(child, cfg, ops))
+    pr.start()
+    child.close()
+    res = parent.recv() if parent.poll(240) else None
+    pr.join(10)
+    if pr.is_alive():
+        pr.kill()
+    if res is None or "error" in res:
+        ctx.count("mp_child_failed")
+        return
+    ctx.count("mp_child_runs")
+    if not res["in_child"]:
+        ctx.count("mp_child_not_a_child")
+        return
+    for step, (op, a, b) in enumerate(zip(ops, res["out"], res["ref"])):
+        if not op["op"].startswith("predict"):
+            continue
+        ctx.ev()
+        d = twin.first_diff(a, b)
+        if d:
+            ctx.violation("%s inside a multiprocessing child: n_jobs=%d backend='threading' differs from n_jobs=1 at step %d (%s): %s" % (
+                gen.cfg_sig(cfg), cfg["_g_jobs"], step, gen.short(op), d), wit, mech="K2" if is_k2(cfg) else None,
+                kind="mp_child|%s" % gen.cfg_sig(cfg))
+            return
+        if op.get("X") is not None and len(op["X"]) > 1:
+            ctx.nt("G", gen.cfg_sig(cfg), cfg["_g_jobs"], len(op["X"]))
+    ctx.sample({"monitor": "G", "cfg": cfg, "ops": [gen.short(o) for o in ops]})
 
 
 # ------------------------------------------------------------------------------------------------------ E
@@ -352,4 +421,6 @@ def run_case(rs, ctx):
         return run_AB(rs, ctx, j * 4 + rep, True)
     if name == "E":
         return run_E(rs, ctx, j)
+    if name == "G":
+        return run_G(rs, ctx, j)
     return run_F(rs, ctx, j)
